@@ -30,10 +30,20 @@ def run(F, S, R, tier):
                 else:
                     R.bad("order/append/checked/" + K.label(pat), "the Result of %s is ignored: the counter would advance over a failed write" % K.label(pat), [c.where()])
         wi = ap.calls_to(FF + "write_index$")
-        if wi and K.src_match(ap.operand_sources(wi[0].args[1]), [r"field:.*FreezerFiles\.head_id"]) and K.src_match(ap.operand_sources(wi[0].args[2]), [r"field:.*Head\.bytes"]):
-            R.ok("prov/append/index-entry", "the index entry records (head_id, head.bytes after the write)", [wi[0].where()])
+        hw = F.need("ckb_freezer::freezer_files::Head::write")
+        # the offset recorded in the index entry is where the item ends: head.bytes + data.len(), as returned by Head::write (F20: head.bytes itself
+        # moves only once the entry is written) or, equivalently, head.bytes read after a write that already advanced it
+        end_ok = False
+        if wi:
+            s2 = ap.operand_sources(wi[0].args[2])
+            if K.src_match(s2, [r"call:.*freezer_files::Head::write$"]):
+                end_ok = True
+            elif K.src_match(s2, [r"field:.*Head\.bytes"]):
+                end_ok = True
+        if wi and end_ok and K.src_match(ap.operand_sources(wi[0].args[1]), [r"field:.*FreezerFiles\.head_id"]):
+            R.ok("prov/append/index-entry", "the index entry records (head_id, end offset of the item in the head file)", [wi[0].where()])
         else:
-            R.bad("prov/append/index-entry", "write_index is not given (self.head_id, self.head.bytes)", [ap.where()])
+            R.bad("prov/append/index-entry", "write_index is not given (self.head_id, end offset returned by Head::write / self.head.bytes)", [ap.where()])
         K.cmp_table(R, "cmp/append/expected-number", ap, [r"call:.*Atomic(U64|::<u64>)::load$"], [r"param:number"], {"<": "ERR", "=": "CONT", ">": "ERR"}, K.classify_err(), what="only the next item number may be appended")
         K.cmp_table(R, "cmp/append/rollover", ap, [r"field:.*Head\.bytes"], [r"field:.*FreezerFiles\.max_size"], {"<": "SAME", "=": "SAME", ">": "ROLL"},
                     K.classify_reach([FF + "open_truncated$"], "ROLL", "SAME"), what="a new data file is opened when the item does not fit", arith=(["op:add"], []))
@@ -52,12 +62,43 @@ def run(F, S, R, tier):
             R.ok("affine/append/next-id", "the new data file is head_id + 1", [ot[0].where()])
         else:
             R.bad("affine/append/next-id", "the new data file id has form %s, expected head_id + 1" % sig, [ap.where()])
-        hw = F.need("ckb_freezer::freezer_files::Head::write")
-        upd = [st for blk in hw.blocks for st in blk["s"] if st[0][1] and st[0][1][-1].endswith("Head.bytes")]
-        if upd and hw.calls_to(r"write_all$") and all(hw.dominates(c.bb, i) for c in hw.calls_to(r"write_all$") for i, blk in enumerate(hw.blocks) for st in blk["s"] if st[0][1] and st[0][1][-1].endswith("Head.bytes")):
-            R.ok("order/head-write", "head.bytes grows only after write_all succeeded", [hw.where()])
+        # F20 (fixed): head.bytes (where the next item starts) may move only when the item has its index entry. It used to be advanced inside
+        # Head::write: an index write that failed left it behind orphaned bytes, and a retried append produced an entry spanning orphan + item.
+        def bytes_writes(b):
+            return [(i, st) for i, blk in enumerate(b.blocks) for st in blk["s"] if st[0][1] and str(st[0][1][-1]).endswith("Head.bytes")]
+        in_write = bytes_writes(hw)
+        in_append = bytes_writes(ap)
+        R.sites += len(in_write) + len(in_append)
+        if in_write:
+            R.bad("order/bytes-after-index", "Head::write advances head.bytes itself: a failed index write leaves the head behind bytes no index entry accounts for (F20)", ["%s:%s" % (hw.file, in_write[0][1][2])])
+        elif not in_append:
+            R.bad("order/bytes-after-index/anchor-lost", "no assignment to Head.bytes found in FreezerFiles::append", [ap.where()])
+        elif wi and all(ap.dominates(wi[0].target if wi[0].target is not None else wi[0].bb, i) and wi[0].bb != i for i, _ in in_append):
+            R.ok("order/bytes-after-index", "head.bytes moves only after write_index returned (and its error aborted the append)", ["%s:%s" % (ap.file, in_append[0][1][2])])
         else:
-            R.bad("order/head-write", "Head::write no longer updates bytes after a successful write_all", [hw.where()])
+            R.bad("order/bytes-after-index", "head.bytes is advanced before the index entry of the item is written (F20)", ["%s:%s" % (ap.file, in_append[0][1][2])])
+        others = [b.path for b in F.bodies_of_crate("ckb_freezer") if b.path not in (ap.path, hw.path, tr.path) and not b.path.endswith("Head::new") and bytes_writes(b)]      # truncate: C09/mustcall/truncate/head-bytes
+        if others:
+            R.bad("order/bytes-after-index/other-writers", "Head.bytes is also assigned in %s" % others, [])
+        if hw.calls_to(r"write_all$"):
+            R.ok("order/head-write", "Head::write writes the data with write_all", [hw.where()])
+        else:
+            R.bad("order/head-write", "Head::write no longer calls write_all", [hw.where()])
+        # F21 (fixed): the data file that stops being the head is fsynced before it is replaced; sync_all() only ever reaches the current head, and
+        # the caller deletes the frozen blocks from the kv store once freeze() returns
+        ot2 = ap.calls_to(FF + "open_truncated$")
+        syncs = [c for c in ap.calls_to(r"File::sync_all$|File::sync_data$") if K.src_match(ap.operand_sources(c.args[0]), [r"field:.*Head\.file"])]
+        R.sites += len(syncs)
+        if not ot2:
+            R.bad("mustcall/rollover-sync/anchor-lost", "no open_truncated in append", [ap.where()])
+        elif syncs and all(any(ap.dominates(c.bb, o.bb) for c in syncs) for o in ot2):
+            nxt = ap.term(syncs[0].target) if syncs[0].target is not None else {}
+            if nxt.get("k") == "call" and (nxt.get("callee") or "").endswith("Try::branch"):
+                R.ok("mustcall/rollover-sync", "the outgoing head file is fsynced (error aborts the append) before the next data file is opened", [syncs[0].where()])
+            else:
+                R.bad("mustcall/rollover-sync", "the result of the outgoing head's sync_all is ignored", [syncs[0].where()])
+        else:
+            R.bad("mustcall/rollover-sync", "the data file that stops being the head is never fsynced: items frozen before a rollover may not be on disk when freeze() reports them (F21)", [ot2[0].where()])
     R.guard("order/append", append_order)
 
     # ---------------------------------------------------------------- 2. fsync
